@@ -25,6 +25,12 @@ Print Assumptions nat_of_str_of_nat.
 
 (* every paragraph identity lies below the document's next free identity (what the reader guarantees, and what every session keeps) *)
 Definition wf_ids (d : doc) : Prop := Forall (fun p => p_id p < d_next_uid d) (doc_paras d).
+Lemma wf_of_ids a b : map p_id (doc_paras b) = map p_id (doc_paras a) -> d_next_uid a <= d_next_uid b -> wf_ids a -> wf_ids b.
+Proof. intros E M W. unfold wf_ids in *. apply Forall_forall. intros p Hp.
+  assert (Hi : In (p_id p) (map p_id (doc_paras a))) by (rewrite <- E; now apply in_map).
+  apply in_map_iff in Hi as (q & Hq & Hqin). rewrite Forall_forall in W. specialize (W q Hqin). lia. Qed.
+Lemma ids_map_doc f d : (forall p, p_id (f p) = p_id p) -> map p_id (doc_paras (map_doc f d)) = map p_id (doc_paras d).
+Proof. intros Hf. rewrite doc_paras_map, map_map. apply map_ext. exact Hf. Qed.
 (* ---------- the session-rejected view and the relation every engine step preserves ---------- *)
 Section EngInv.
 Variable cur0 c0 n0 : nat.          (* highest revision id / first free comment id / first free node identity when the session starts *)
@@ -139,9 +145,13 @@ Proof. intros W (A1 & _) M. unfold wf_ids, Mon in *.
   { apply (f_equal (map (fun t : nat * N * pstyle * list atom => fst (fst (fst t))))) in A1. rewrite !map_map in A1. exact A1. }
   apply Forall_forall. intros p Hp. assert (Hi : In (p_id p) (map p_id (doc_paras b))) by (rewrite <- E; now apply in_map).
   apply in_map_iff in Hi as (q & Hq & Hqin). rewrite Forall_forall in W. specialize (W q Hqin). lia. Qed.
-Definition Inv (e : eng) : Prop := RelG d0 (e_doc e) /\ n0 <= d_next_uid (e_doc e) /\ cur0 <= e_cur e /\ c0 <= e_next_c e /\ wf_ids (e_doc e).
+(* g: a nested-insertion replacement has happened in this batch (the documented exception of C01: from then on the relation to the
+   input is no longer claimed; identities, id counters and well-formedness still are) *)
+Section Flag.
+Variable g : bool.
+Definition Inv (e : eng) : Prop := (g = false -> RelG d0 (e_doc e)) /\ n0 <= d_next_uid (e_doc e) /\ cur0 <= e_cur e /\ c0 <= e_next_c e /\ wf_ids (e_doc e).
 Lemma Inv_with_doc e d : Inv e -> Rel (e_doc e) d -> Mon (e_doc e) d -> Inv (with_doc e d).
-Proof. intros (A & N & B & C & W) R M. split; [exact (RelG_step _ _ _ A R)|]. pose proof (wf_step _ _ W R M) as W'. unfold Mon in M. cbn [with_doc e_doc e_cur e_next_c]. repeat split; try assumption; lia. Qed.
+Proof. intros (A & N & B & C & W) R M. split; [intros Hg; exact (RelG_step _ _ _ (A Hg) R)|]. pose proof (wf_step _ _ W R M) as W'. unfold Mon in M. cbn [with_doc e_doc e_cur e_next_c]. repeat split; try assumption; lia. Qed.
 Lemma new_mark_inv e : Inv e -> Inv (fst (new_mark e)) /\ Smark (snd (new_mark e)) = true.
 Proof. intros (A & N & B & C & W). unfold new_mark. cbn [fst snd]. split; [split; [exact A|split; [exact N|split; [cbn; lia|split; [cbn; lia|exact W]]]]|].
   unfold Smark. cbn [m_id]. rewrite nat_of_str_of_nat. apply Nat.ltb_lt. lia. Qed.
@@ -184,7 +194,7 @@ Proof. intros (A & N & B & C & W). unfold attach. destruct text as [|c t]; [exac
   pose proof (Rel_fresh d1) as R2. pose proof (Mon_fresh d1) as M2. destruct (fresh d1) as [d2 ru]. cbn [fst] in R2, M2.
   pose proof (Rel_upd (PAnchor su eu cid ru rpr_cref) d2 Hc) as R3. pose proof (Mon_upd (prim_fun (PAnchor su eu cid ru rpr_cref)) d2) as M3.
   split; [|split; [|split; [cbn; lia|split; [cbn; lia|]]]]; cbn [e_doc].
-  - eapply RelG_step; [|exact R3]. eapply RelG_step; [|exact R2]. eapply RelG_step; [exact A|exact R1].
+  - intros Hg. eapply RelG_step; [|exact R3]. eapply RelG_step; [|exact R2]. eapply RelG_step; [exact (A Hg)|exact R1].
   - unfold Mon in *. cbn in *. lia.
   - exact (wf_step _ _ (wf_step _ _ (wf_step _ _ W R1 M1) R2 M2) R3 M3). Qed.
 
@@ -227,8 +237,8 @@ Proof. induction ls as [|l ls IH]; intros e ns cr i H Hn; cbn [fold_left]; [spli
   destruct (new_para_inv e ct anc sup st cur H) as (H1 & Hg & Hl & Hm). destruct (new_para e ct anc sup st cur) as [[e' p] iu]. cbn [fst snd] in *.
   apply IH; [exact H1|]. apply Forall_app. split; [exact (good_at_mono _ _ _ Hm Hn)|]. constructor; [split; assumption|constructor]. Qed.
 Lemma place_paras_inv e pid news : Inv e -> Forall (good_at e) news -> Inv (with_doc e (place_paras pid news (e_doc e))).
-Proof. intros (A & N & B & C & W) Hn. destruct A as [R D]. split; [|cbn [with_doc e_doc e_cur e_next_c]; repeat split; auto].
-  - cbn [with_doc e_doc]. split.
+Proof. intros (A & N & B & C & W) Hn. split; [|cbn [with_doc e_doc e_cur e_next_c]; repeat split; auto].
+  - intros Hg. destruct (A Hg) as [R D]. cbn [with_doc e_doc]. split.
     + rewrite prune_place; [exact R|]. apply Forall_forall. intros ip Hip. rewrite Forall_forall in Hn. exact (proj1 (proj1 (Hn ip Hip))).
     + unfold NewDead in *. apply Forall_forall. intros t Ht. apply in_map_iff in Ht as (p & <- & Hp).
       destruct (paras_place _ _ _ _ Hp) as [Ho|Hnew].
@@ -277,112 +287,156 @@ Lemma fold_delete_inv : forall work e ds, Inv e ->
   Inv (fst (fold_left (fun acc u => let '(e0, ds) := acc in let '(e0', du) := delete_run e0 u in (e0', ds ++ [du])) work (e, ds))).
 Proof. induction work as [|u work IH]; intros e ds H; [exact H|]. cbn [fold_left].
   pose proof (delete_run_inv e u H) as H1. destruct (delete_run e u) as [e' du]. cbn [fst] in H1. now apply IH. Qed.
-Lemma apply_indexed_inv s uc st tg nw cm o : InvS s -> InvS (fst (apply_indexed s uc st tg nw cm o)).
-Proof. intros H. unfold InvS in *. unfold apply_indexed.
+End Flag.
+(* the flag only ever weakens the claim *)
+Lemma Inv_mono g g' e : (g' = false -> g = false) -> Inv g e -> Inv g' e.
+Proof. intros Hg (A & R). split; [intros E; exact (A (Hg E))|exact R]. Qed.
+(* a step that keeps the paragraph identities and does not lower next_uid keeps everything but the relation to the input *)
+Lemma Inv_drop g e d : Inv g e -> map p_id (doc_paras d) = map p_id (doc_paras (e_doc e)) -> Mon (e_doc e) d -> Inv true (with_doc e d).
+Proof. intros (A & N & B & C & W) E M. split; [discriminate|]. unfold Mon in M. cbn [with_doc e_doc e_cur e_next_c].
+  repeat split; try assumption; try lia. exact (wf_of_ids _ _ E M W). Qed.
+Definition isN (o : outcome) : bool := match o with AppliedN | SkippedN => true | _ => false end.
+Lemma nested_inline_inv g e text anc : Inv g e ->
+  Inv g (fst (nested_inline e text anc)) /\ (forall ins, snd (nested_inline e text anc) = Some ins -> session_ins ins).
+Proof. intros H. unfold nested_inline. destruct (split_lines text) as [|l0 rest]; [split; [exact H|discriminate]|].
+  destruct (snd (md_style l0)); [split; [exact H|discriminate]|].
+  assert (G : Inv g (fst (let '(e1, ins) := ins_inline e l0 anc false in (e1, Some ins))) /\
+              (forall ins, snd (let '(e1, ins) := ins_inline e l0 anc false in (e1, Some ins)) = Some ins -> session_ins ins)).
+  { destruct (ins_inline_inv g e l0 anc false H) as [H1 Hi]. destruct (ins_inline e l0 anc false) as [e1 ins]. cbn [fst snd] in *.
+    split; [exact H1|]. intros ins' E. inversion E; subst. exact Hi. }
+  destruct l0 as [|x l0']; [|exact G].
+  destruct (match last_opt rest with Some [] => removelast rest | _ => rest end); [exact G|split; [exact H|discriminate]]. Qed.
+Lemma ids_reject i d : map p_id (doc_paras (reject_doc i d)) = map p_id (doc_paras d).
+Proof. unfold reject_doc. apply ids_map_doc. reflexivity. Qed.
+Lemma nested_replace_inv g s i nw cm : InvS g s ->
+  InvS (g || isN (snd (nested_replace s i nw cm))) (fst (nested_replace s i nw cm)).
+Proof. intros H. unfold InvS in *. unfold nested_replace.
+  assert (Hk : Inv (g || true) (s_eng s)) by (revert H; apply Inv_mono; rewrite orb_true_r; discriminate).
+  destruct (first_ins i (e_doc (s_eng s))) as [n|]; [|cbn [fst snd isN]; exact Hk].
+  destruct n as [u f k|u0 wk m cs|j|j|t]; try (cbn [fst snd isN]; exact Hk).
+  destruct nw as [|c nw'].
+  - cbn [fst snd isN set_eng s_eng]. rewrite orb_true_r. eapply Inv_drop; [exact H|apply ids_reject|unfold Mon; cbn; lia].
+  - match goal with |- context[nested_inline ?a ?b ?c0] => destruct (nested_inline_inv g a b c0 H) as [H1 Hi]; destruct (nested_inline a b c0) as [e1 oins] end.
+    cbn [fst snd] in H1, Hi. destruct oins as [ins|]; cbn [fst snd isN set_eng s_eng]; rewrite orb_true_r.
+    + apply attach_inv. pose proof (place_before_inv g e1 u0 ins H1 (Hi ins eq_refl)) as H2.
+      eapply Inv_drop; [exact H2|apply ids_reject|unfold Mon; cbn; lia].
+    + eapply Inv_drop; [exact H1|apply ids_reject|unfold Mon; cbn; lia]. Qed.
+Ltac leafI := cbn [fst snd isN]; rewrite ?orb_false_r; unfold InvS; cbn [fst set_eng s_eng].
+Lemma apply_indexed_inv g s uc st tg nw cm o : InvS g s ->
+  InvS (g || isN (snd (apply_indexed s uc st tg nw cm o))) (fst (apply_indexed s uc st tg nw cm o)).
+Proof. intros H. unfold apply_indexed.
   set (sp := if uc then _ else _). set (e := s_eng s) in *.
-  destruct (match _ with Some c => is_some_nonempty (o_ins c) | None => false end); [exact H|].
-  destruct (negb (block_ok nw)); [exact H|].
+  destruct (match _ with Some c => is_some_nonempty (o_ins c) | None => false end); [now apply nested_replace_inv|].
+  unfold InvS in H. fold e in H.
+  destruct (negb (block_ok nw)); [leafI; exact H|].
   destruct (match o with Some x => x | None => _ end).
   - (* insertion *)
     pose proof (Rel_anchor (e_doc e) sp st) as RA. pose proof (Mon_anchor (e_doc e) sp st) as MA.
     destruct (insertion_anchor (e_doc e) sp st) as [d1 a0]. cbn [fst] in RA, MA.
-    pose proof (Inv_with_doc e d1 H RA MA) as H1.
+    pose proof (Inv_with_doc g e d1 H RA MA) as H1.
     match goal with |- context[let '(a, before) := ?X in _] => destruct X as [a before] end.
-    destruct a as [au|]; [|exact H1].
-    destruct (negb (is_direct au d1)); [exact H|].
+    destruct a as [au|]; [|leafI; exact H1].
+    destruct (negb (is_direct au d1)); [leafI; exact H|].
     set (style := if before then _ else _).
     destruct (inline_text nw).
-    + destruct (ins_inline_inv (with_doc e d1) nw style false H1) as [H2 Hi].
-      destruct (ins_inline (with_doc e d1) nw style false) as [e2 ins]. cbn [fst snd] in *. cbn [fst set_eng s_eng].
+    + destruct (ins_inline_inv g (with_doc e d1) nw style false H1) as [H2 Hi].
+      destruct (ins_inline (with_doc e d1) nw style false) as [e2 ins]. cbn [fst snd] in H2, Hi. leafI.
       apply attach_inv. destruct before; [now apply place_before_inv|now apply place_after_inv].
-    + destruct (para_rec au d1) as [cur|]; [|exact H].
-      destruct (track_insert_inv (with_doc e d1) nw style cur cm false H1) as [H2 Hi].
-      destruct (track_insert (with_doc e d1) nw style cur cm false) as [e2 oi]. cbn [fst snd] in *.
-      destruct oi as [ins|]; cbn [fst set_eng s_eng]; [|exact H2].
+    + destruct (para_rec au d1) as [cur|]; [|leafI; exact H].
+      destruct (track_insert_inv g (with_doc e d1) nw style cur cm false H1) as [H2 Hi].
+      destruct (track_insert (with_doc e d1) nw style cur cm false) as [e2 oi]. cbn [fst snd] in H2, Hi.
+      destruct oi as [ins|]; leafI; [|exact H2].
       apply attach_inv. specialize (Hi ins eq_refl). destruct before; [now apply place_before_inv|now apply place_after_inv].
   - (* deletion *)
     pose proof (Rel_resolve (e_doc e) sp st (st + length tg)) as RR. pose proof (Mon_resolve (e_doc e) sp st (st + length tg)) as MR.
     destruct (resolve (e_doc e) sp st (st + length tg)) as [[d1 work] modif]. cbn [fst] in RR, MR.
-    pose proof (Inv_with_doc e d1 H RR MR) as H1.
+    pose proof (Inv_with_doc g e d1 H RR MR) as H1.
     set (s1 := if modif then _ else _).
-    assert (Hs1 : Inv (s_eng s1)) by (unfold s1; destruct modif, uc; exact H1).
-    destruct work as [|w0 work']; [exact Hs1|].
-    destruct (negb (same_para_direct d1 (w0 :: work'))); [exact H|].
-    pose proof (fold_delete_inv (w0 :: work') (s_eng s1) [] Hs1) as HF.
+    assert (Hs1 : Inv g (s_eng s1)) by (unfold s1; destruct modif, uc; exact H1).
+    destruct work as [|w0 work']; [leafI; exact Hs1|].
+    destruct (negb (same_para_direct d1 (w0 :: work'))); [leafI; exact H|].
+    pose proof (fold_delete_inv g (w0 :: work') (s_eng s1) [] Hs1) as HF.
     destruct (fold_left _ (w0 :: work') (s_eng s1, [])) as [e2 dels]. cbn [fst] in HF.
-    cbn [fst set_eng s_eng]. now apply attach_inv.
+    leafI. now apply attach_inv.
   - (* modification *)
     pose proof (Rel_resolve (e_doc e) sp st (st + length tg)) as RR. pose proof (Mon_resolve (e_doc e) sp st (st + length tg)) as MR.
     destruct (resolve (e_doc e) sp st (st + length tg)) as [[d1 work] modif]. cbn [fst] in RR, MR.
-    pose proof (Inv_with_doc e d1 H RR MR) as H1.
+    pose proof (Inv_with_doc g e d1 H RR MR) as H1.
     set (s1 := if modif then _ else _).
-    assert (Hs1 : Inv (s_eng s1)) by (unfold s1; destruct modif, uc; exact H1).
-    destruct work as [|w0 work']; [exact Hs1|].
-    destruct (negb (same_para_direct d1 (w0 :: work'))); [exact H|].
-    pose proof (fold_delete_inv (w0 :: work') (s_eng s1) [] Hs1) as HF.
+    assert (Hs1 : Inv g (s_eng s1)) by (unfold s1; destruct modif, uc; exact H1).
+    destruct work as [|w0 work']; [leafI; exact Hs1|].
+    destruct (negb (same_para_direct d1 (w0 :: work'))); [leafI; exact H|].
+    pose proof (fold_delete_inv g (w0 :: work') (s_eng s1) [] Hs1) as HF.
     destruct (fold_left _ (w0 :: work') (s_eng s1, [])) as [e2 dels]. cbn [fst] in HF.
-    destruct nw as [|c nw']; [exact HF|].
+    destruct nw as [|c nw']; [leafI; exact HF|].
     set (tti := match md_style (c :: nw') with (ct, Some l) => _ | _ => _ end).
     destruct (inline_text tti).
-    + match goal with |- context[ins_inline e2 ?t ?r ?b] => destruct (ins_inline_inv e2 t r b HF) as [H2 Hi]; destruct (ins_inline e2 t r b) as [e3 ins] end.
-      cbn [fst snd] in *. cbn [fst set_eng s_eng]. apply attach_inv. now apply place_after_inv.
-    + destruct (para_rec _ d1) as [cp|]; [|exact H].
-      match goal with |- context[track_insert e2 ?t ?r ?p ?c0 ?b] => destruct (track_insert_inv e2 t r p c0 b HF) as [H2 Hi]; destruct (track_insert e2 t r p c0 b) as [e3 oi] end.
-      cbn [fst snd] in *. destruct oi as [ins|]; cbn [fst set_eng s_eng]; [|exact H2].
+    + match goal with |- context[ins_inline e2 ?t ?r ?b] => destruct (ins_inline_inv g e2 t r b HF) as [H2 Hi]; destruct (ins_inline e2 t r b) as [e3 ins] end.
+      cbn [fst snd] in H2, Hi. leafI. apply attach_inv. now apply place_after_inv.
+    + destruct (para_rec _ d1) as [cp|]; [|leafI; exact H].
+      match goal with |- context[track_insert e2 ?t ?r ?p ?c0 ?b] => destruct (track_insert_inv g e2 t r p c0 b HF) as [H2 Hi]; destruct (track_insert e2 t r p c0 b) as [e3 oi] end.
+      cbn [fst snd] in H2, Hi. destruct oi as [ins|]; leafI; [|exact H2].
       apply attach_inv. apply place_after_inv; [exact H2|]. exact (Hi ins eq_refl).
 Qed.
 
-Lemma locate_inv s tg orc : InvS s -> InvS (snd (fst (locate s tg orc))).
+Lemma locate_inv g s tg orc : InvS g s -> InvS g (snd (fst (locate s tg orc))).
 Proof. intros H. unfold locate. destruct (find_sub tg (map_text (s_raw s)) 0); [exact H|].
   destruct orc as [|a r]; (match goal with |- context[find_sub tg ?a 0] => destruct (find_sub tg a 0) end; [exact H|]).
   - match goal with |- context[find_match ?a ?b ?c] => destruct (find_match a b c) end. exact H.
   - destruct a; [exact H|]. match goal with |- context[find_match ?a ?b ?c] => destruct (find_match a b c) end. exact H. Qed.
-Lemma apply_located_inv s uc st ml nw cm : InvS s -> InvS (fst (apply_located s uc st ml nw cm)).
+Lemma apply_located_inv g s uc st ml nw cm : InvS g s ->
+  InvS (g || isN (snd (apply_located s uc st ml nw cm))) (fst (apply_located s uc st ml nw cm)).
 Proof. intros H. unfold apply_located.
-  repeat (match goal with |- context[if ?x then _ else _] => destruct x end; try exact H); try (apply apply_indexed_inv; exact H).
-Qed.
-Lemma apply_heuristic_inv s tg nw cm orc : InvS s -> InvS (fst (fst (apply_heuristic s tg nw cm orc))).
-Proof. intros H. unfold apply_heuristic. destruct tg as [|c tg']; [exact H|].
-  pose proof (locate_inv s (c :: tg') orc H) as HL. destruct (locate s (c :: tg') orc) as [[[m uc] s1] orc2]. cbn [fst snd] in HL.
-  destruct m as [[st ml]|]; [|exact HL]. cbn [fst]. now apply apply_located_inv. Qed.
-Lemma rebuild_inv s : InvS s -> InvS (rebuild s). Proof. auto. Qed.
+  destruct (existsb _ _); [leafI; exact H|].
+  destruct (find _ (firstn 1 _)).
+  { match goal with |- context[apply_indexed ?a ?b ?c ?d ?e ?f ?g0] => pose proof (apply_indexed_inv g a b c d e f g0 H) as HH; destruct (apply_indexed a b c d e f g0) as [s' oc] end.
+    cbn [fst snd] in *. destruct oc; cbn [isN] in *; try exact HH; rewrite orb_true_r; rewrite orb_false_r in HH; revert HH; apply Inv_mono; discriminate. }
+  destruct (str_eqb _ _); [leafI; exact H|]. destruct (prefixb _ _); [now apply apply_indexed_inv|].
+  match goal with |- context[match ?a with [] => _ | _ :: _ => _ end] => destruct a end;
+  match goal with |- context[match ?a with [] => _ | _ :: _ => _ end] => destruct a end; first [now apply apply_indexed_inv | leafI; exact H]. Qed.
+Lemma apply_heuristic_inv g s tg nw cm orc : InvS g s ->
+  InvS (g || isN (snd (fst (apply_heuristic s tg nw cm orc)))) (fst (fst (apply_heuristic s tg nw cm orc))).
+Proof. intros H. unfold apply_heuristic. destruct tg as [|c tg']; [leafI; exact H|].
+  pose proof (locate_inv g s (c :: tg') orc H) as HL. destruct (locate s (c :: tg') orc) as [[[m uc] s1] orc2]. cbn [fst snd] in HL.
+  destruct m as [[st ml]|]; [|leafI; exact HL]. cbn [fst snd]. now apply apply_located_inv. Qed.
+Lemma rebuild_inv g s : InvS g s -> InvS g (rebuild s). Proof. auto. Qed.
 
-(* ---------- the invariant along a batch ---------- *)
-Definition hstate := (est * nat * nat * nat * list fm * list (nat * nat))%type.
-Definition h_inv (a : hstate) : Prop := let '(s, _, _, _, _, _) := a in InvS s.
+(* ---------- the invariant along a batch: the flag is "some nested replacement has been counted" ---------- *)
+Definition hstate := (est * nat * nat * nat * list fm * list (nat * nat) * nat)%type.
+Definition h_inv (a : hstate) : Prop := let '(s, _, _, _, _, _, nn) := a in InvS (0 <? nn) s.
 Lemma step_heur_inv a edp : h_inv a -> h_inv (step_heur a edp).
-Proof. destruct a as [[[[[s ap] sk] out] orc] occ]. destruct edp as [ed rng]. intros HI. unfold step_heur.
+Proof. destruct a as [[[[[[s ap] sk] out] orc] occ] nn]. destruct edp as [ed rng]. intros HI. unfold step_heur.
   destruct (negb (Nat.eqb out 0)); [exact HI|].
   destruct (match rng with Some (a, b) => overl occ a b | None => false end); [exact HI|].
-  pose proof (apply_heuristic_inv s (ed_target ed) (ed_new ed) (ed_comment ed) orc HI) as HH.
-  destruct (apply_heuristic s _ _ _ orc) as [[s' oc] orc']. cbn [fst] in HH. destruct oc; exact HH. Qed.
+  pose proof (apply_heuristic_inv (0 <? nn) s (ed_target ed) (ed_new ed) (ed_comment ed) orc HI) as HH.
+  destruct (apply_heuristic s _ _ _ orc) as [[s' oc] orc']. cbn [fst snd] in HH. destruct oc; cbn [isN h_inv] in *; rewrite ?orb_false_r in HH; try exact HH; rewrite orb_true_r in HH; exact HH. Qed.
 Lemma fold_heur_inv : forall es a, h_inv a -> h_inv (fold_left step_heur es a).
 Proof. induction es as [|ed es IH]; intros a H; cbn [fold_left]; [exact H|]. apply IH. now apply step_heur_inv. Qed.
-Definition istate := (est * nat * nat * nat * list (nat * nat))%type.
-Definition i_inv (a : istate) : Prop := let '(s, _, _, _, _) := a in InvS s.
+Definition istate := (est * nat * nat * nat * list (nat * nat) * nat)%type.
+Definition i_inv (a : istate) : Prop := let '(s, _, _, _, _, nn) := a in InvS (0 <? nn) s.
 Lemma step_idx_inv a ed : i_inv a -> i_inv (step_idx a ed).
-Proof. destruct a as [[[[s ap] sk] out] occ]. intros HI. unfold step_idx.
+Proof. destruct a as [[[[[s ap] sk] out] occ] nn]. intros HI. unfold step_idx.
   destruct (negb (Nat.eqb out 0)); [exact HI|].
   destruct (overl occ _ _); [exact HI|].
-  match goal with |- context[apply_indexed ?a ?b ?c ?d ?e ?f ?g] => pose proof (apply_indexed_inv a b c d e f g HI) as HH; destruct (apply_indexed a b c d e f g) as [s' oc] end.
-  cbn [fst] in HH. destruct oc; exact HH. Qed.
+  match goal with |- context[apply_indexed ?a ?b ?c ?d ?e ?f ?g0] => pose proof (apply_indexed_inv (0 <? nn) a b c d e f g0 HI) as HH; destruct (apply_indexed a b c d e f g0) as [s' oc] end.
+  cbn [fst snd] in HH. destruct oc; cbn [isN i_inv] in *; rewrite ?orb_false_r in HH; try exact HH; rewrite orb_true_r in HH; exact HH. Qed.
 Lemma fold_idx_inv : forall es a, i_inv a -> i_inv (fold_left step_idx es a).
 Proof. induction es as [|ed es IH]; intros a H; cbn [fold_left]; [exact H|]. apply IH. now apply step_idx_inv. Qed.
 End EngInv.
 
 (* ---------- counting: every submitted edit is counted exactly once (unless the model stops at an out-of-scope case) ---------- *)
-Definition h_cnt (k : nat) (a : hstate) : Prop := let '(_, ap, sk, out, _, _) := a in out = 0 -> ap + sk = k.
+Definition h_cnt (k : nat) (a : hstate) : Prop := let '(_, ap, sk, out, _, _, _) := a in out = 0 -> ap + sk = k.
 Lemma step_heur_cnt k a edp : h_cnt k a -> h_cnt (S k) (step_heur a edp).
-Proof. destruct a as [[[[[s ap] sk] out] orc] occ]. destruct edp as [ed rng]. intros Hc. unfold step_heur.
+Proof. destruct a as [[[[[[s ap] sk] out] orc] occ] nn]. destruct edp as [ed rng]. intros Hc. unfold step_heur.
   destruct out as [|out']; [|intros E; discriminate]. cbn [Nat.eqb negb]. specialize (Hc eq_refl).
   destruct (match rng with Some (a, b) => overl occ a b | None => false end); [intros _; lia|].
   destruct (apply_heuristic s _ _ _ orc) as [[s' oc] orc']. destruct oc; intros E; try lia; discriminate. Qed.
 Lemma fold_heur_cnt : forall es k a, h_cnt k a -> h_cnt (k + length es) (fold_left step_heur es a).
 Proof. induction es as [|ed es IH]; intros k a H; cbn [fold_left length]; [now rewrite Nat.add_0_r|].
   replace (k + S (length es)) with (S k + length es) by lia. apply IH. now apply step_heur_cnt. Qed.
-Definition i_cnt (k : nat) (a : istate) : Prop := let '(_, ap, sk, out, _) := a in out = 0 -> ap + sk = k.
+Definition i_cnt (k : nat) (a : istate) : Prop := let '(_, ap, sk, out, _, _) := a in out = 0 -> ap + sk = k.
 Lemma step_idx_cnt k a ed : i_cnt k a -> i_cnt (S k) (step_idx a ed).
-Proof. destruct a as [[[[s ap] sk] out] occ]. intros Hc. unfold step_idx.
+Proof. destruct a as [[[[[s ap] sk] out] occ] nn]. intros Hc. unfold step_idx.
   destruct out as [|out']; [|intros E; discriminate]. cbn [Nat.eqb negb]. specialize (Hc eq_refl).
   destruct (overl occ _ _); [intros _; lia|].
   match goal with |- context[apply_indexed ?a ?b ?c ?d ?e ?f ?g] => destruct (apply_indexed a b c d e f g) as [s' oc] end.
@@ -408,7 +462,7 @@ Proof. induction l as [|ed l IH]; intros tx orc; cbn [plan]; [reflexivity|].
 
 
 Theorem engine_counts d author ts edits orc :
-  let '(_, ap, sk, out) := apply_edits d author ts edits orc in out = 0 -> ap + sk = length edits.
+  let '(_, ap, sk, out, _) := apply_edits d author ts edits orc in out = 0 -> ap + sk = length edits.
 Proof. unfold apply_edits.
   set (e := mk_engine d author ts).
   set (s0 := {| s_eng := e; s_raw := _; s_clean := None; s_cm0 := _; s_cmc := [] |}).
@@ -416,53 +470,56 @@ Proof. unfold apply_edits.
   assert (Hlen : length indexed + length heur = length edits).
   { unfold indexed, heur. rewrite <- (filter_split_length (fun x => match ed_index x with Some _ => true | None => false end) edits). f_equal.
     apply f_equal. apply filter_ext. intros x. destruct (ed_index x); reflexivity. }
-  pose proof (fold_idx_cnt (sort_idx_desc indexed) 0 (s0, 0, 0, 0, []) (fun _ => eq_refl)) as HI.
+  pose proof (fold_idx_cnt (sort_idx_desc indexed) 0 (s0, 0, 0, 0, [], 0) (fun _ => eq_refl)) as HI.
   unfold sort_idx_desc in HI at 1. rewrite sort_by_length in HI. cbn [Nat.add] in HI.
-  destruct (fold_left step_idx (sort_idx_desc indexed) (s0, 0, 0, 0, [])) as [[[[s1 ap1] sk1] out1] occ1].
+  destruct (fold_left step_idx (sort_idx_desc indexed) (s0, 0, 0, 0, [], 0)) as [[[[[s1 ap1] sk1] out1] occ1] nn1].
   destruct heur as [|h heur'] eqn:Eh.
   - intros E. cbn [i_cnt] in HI. rewrite (HI E). simpl in Hlen. lia.
   - pose proof (plan_length (sort_len_desc (h :: heur')) (map_text (s_raw (rebuild s1))) orc) as Lp.
     destruct (plan (map_text (s_raw (rebuild s1))) (sort_len_desc (h :: heur')) orc) as [planned orc1]. cbn [fst] in Lp.
     unfold sort_len_desc in Lp. rewrite sort_by_length in Lp.
-    pose proof (fold_heur_cnt planned (length indexed) (rebuild s1, ap1, sk1, out1, orc1, occ1) HI) as HH.
+    pose proof (fold_heur_cnt planned (length indexed) (rebuild s1, ap1, sk1, out1, orc1, occ1, nn1) HI) as HH.
     rewrite Lp in HH.
-    destruct (fold_left step_heur planned _) as [[[[[s2 ap2] sk2] out2] orc2] occ2]. cbn [h_cnt] in HH.
+    destruct (fold_left step_heur planned _) as [[[[[[s2 ap2] sk2] out2] orc2] occ2] nn2]. cbn [h_cnt] in HH.
     intros E. rewrite (HH E). exact Hlen. Qed.
 
 Theorem engine_rel d author ts edits orc :
   let nd := normalize_doc d in
   wf_ids nd ->
-  let '(d', _, _, _) := apply_edits d author ts edits orc in
-  RelG (scan_ids nd) (next_comment_id nd) (d_next_uid nd) nd d' /\ wf_ids d'.
+  let '(d', _, _, _, nn) := apply_edits d author ts edits orc in
+  (nn = 0 -> RelG (scan_ids nd) (next_comment_id nd) (d_next_uid nd) nd d') /\ wf_ids d'.
 Proof. cbn zeta. intros Hwf. unfold apply_edits.
   set (nd := normalize_doc d) in *. set (cur0 := scan_ids nd). set (c0 := next_comment_id nd). set (n0 := d_next_uid nd).
   set (e := mk_engine d author ts).
-  assert (He : Inv cur0 c0 n0 nd e).
+  assert (He : Inv cur0 c0 n0 nd false e).
   { unfold e, mk_engine. fold nd. split; [|cbn [e_doc e_cur e_next_c]; split; [unfold n0; lia|split; [unfold cur0; lia|split; [unfold c0; lia|exact Hwf]]]]. cbn [e_doc].
-    apply Rel_is_RelG; [|apply Rel_refl]. unfold wf_ids in Hwf. apply Forall_forall. intros p Hp. rewrite Forall_forall in Hwf.
+    intros _. apply Rel_is_RelG; [|apply Rel_refl]. unfold wf_ids in Hwf. apply Forall_forall. intros p Hp. rewrite Forall_forall in Hwf.
     unfold keepP, kid, n0. apply Nat.ltb_lt. exact (Hwf p Hp). }
   set (s0 := {| s_eng := e; s_raw := _; s_clean := None; s_cm0 := _; s_cmc := [] |}).
   set (indexed := filter _ edits). set (heur := filter (fun x => match ed_index x with Some _ => false | None => true end) edits).
-  pose proof (fold_idx_inv cur0 c0 n0 nd (sort_idx_desc indexed) (s0, 0, 0, 0, []) He) as HI.
-  destruct (fold_left step_idx (sort_idx_desc indexed) (s0, 0, 0, 0, [])) as [[[[s1 ap1] sk1] out1] occ1]. cbn [i_inv] in HI.
+  pose proof (fold_idx_inv cur0 c0 n0 nd (sort_idx_desc indexed) (s0, 0, 0, 0, [], 0) He) as HI.
+  destruct (fold_left step_idx (sort_idx_desc indexed) (s0, 0, 0, 0, [], 0)) as [[[[[s1 ap1] sk1] out1] occ1] nn1]. cbn [i_inv] in HI.
+  assert (Fin : forall nn s2, InvS cur0 c0 n0 nd (0 <? nn) s2 ->
+          (nn = 0 -> RelG cur0 c0 n0 nd (e_doc (s_eng s2))) /\ wf_ids (e_doc (s_eng s2))).
+  { intros nn s2 (A & _ & _ & _ & W). split; [|exact W]. intros E. apply A. subst nn. reflexivity. }
   destruct heur as [|h heur'].
-  - destruct HI as (A & _ & _ & _ & W). split; assumption.
+  - now apply Fin.
   - destruct (plan (map_text (s_raw (rebuild s1))) (sort_len_desc (h :: heur')) orc) as [planned orc1].
-    pose proof (fold_heur_inv cur0 c0 n0 nd planned (rebuild s1, ap1, sk1, out1, orc1, occ1) HI) as HH.
-    destruct (fold_left step_heur planned _) as [[[[[s2 ap2] sk2] out2] orc2] occ2]. destruct HH as (A & _ & _ & _ & W). split; assumption. Qed.
+    pose proof (fold_heur_inv cur0 c0 n0 nd planned (rebuild s1, ap1, sk1, out1, orc1, occ1, nn1) HI) as HH.
+    destruct (fold_left step_heur planned _) as [[[[[[s2 ap2] sk2] out2] orc2] occ2] nn2]. now apply Fin. Qed.
 Theorem engine_contract d author ts edits orc :
   let nd := normalize_doc d in
-  let '(d', ap, sk, out) := apply_edits d author ts edits orc in
-  (wf_ids nd -> RelG (scan_ids nd) (next_comment_id nd) (d_next_uid nd) nd d') /\ (out = 0 -> ap + sk = length edits).
+  let '(d', ap, sk, out, nn) := apply_edits d author ts edits orc in
+  (wf_ids nd -> nn = 0 -> RelG (scan_ids nd) (next_comment_id nd) (d_next_uid nd) nd d') /\ (out = 0 -> ap + sk = length edits).
 Proof. cbn zeta. pose proof (engine_rel d author ts edits orc) as R. pose proof (engine_counts d author ts edits orc) as K. cbn zeta in R.
-  destruct (apply_edits d author ts edits orc) as [[[d' ap] sk] out]. split; [intros W; exact (proj1 (R W))|assumption]. Qed.
+  destruct (apply_edits d author ts edits orc) as [[[[d' ap] sk] out] nn]. split; [intros W; exact (proj1 (R W))|assumption]. Qed.
 (* a result without paragraphs of the session (no block insertion happened) satisfies the plain relation: same paragraphs *)
 Theorem engine_plain d author ts edits orc :
   let nd := normalize_doc d in
-  let '(d', _, _, _) := apply_edits d author ts edits orc in
-  wf_ids nd -> Forall (fun p => p_id p < d_next_uid nd) (doc_paras d') -> Rel (scan_ids nd) (next_comment_id nd) nd d'.
+  let '(d', _, _, _, nn) := apply_edits d author ts edits orc in
+  wf_ids nd -> nn = 0 -> Forall (fun p => p_id p < d_next_uid nd) (doc_paras d') -> Rel (scan_ids nd) (next_comment_id nd) nd d'.
 Proof. cbn zeta. pose proof (engine_rel d author ts edits orc) as R. cbn zeta in R.
-  destruct (apply_edits d author ts edits orc) as [[[d' ap] sk] out]. intros W K. eapply RelG_no_new; [exact (proj1 (R W))|].
+  destruct (apply_edits d author ts edits orc) as [[[[d' ap] sk] out] nn]. intros W E K. eapply RelG_no_new; [exact (proj1 (R W) E)|].
   apply Forall_forall. intros p Hp. rewrite Forall_forall in K. unfold keepP, kid. apply Nat.ltb_lt. exact (K p Hp). Qed.
 Print Assumptions engine_rel.
 Print Assumptions engine_counts.
@@ -732,12 +789,19 @@ Print Assumptions resolve_keeps_tape.
 
 (* ---------- C08: an edit that is not applied leaves no trace (only run boundaries may move) ---------- *)
 Definition sdoc (s : est) : doc := e_doc (s_eng s).
-Ltac leafA := cbn [fst snd]; let HH := fresh "HH" in intros HH; try (exfalso; apply HH; reflexivity); try apply ARel_refl.
+Definition applied (o : outcome) : bool := match o with Applied | AppliedN => true | _ => false end.
+Ltac leafA := cbn [fst snd applied]; let HH := fresh "HH" in intros HH; try discriminate HH; try apply ARel_refl.
+Lemma nested_replace_not_applied s i nw cm :
+  applied (snd (nested_replace s i nw cm)) = false -> fst (nested_replace s i nw cm) = s.
+Proof. unfold nested_replace. destruct (first_ins i (e_doc (s_eng s))) as [n|]; [|reflexivity].
+  destruct n; try reflexivity. destruct nw; [discriminate|].
+  destruct (nested_inline _ _ _) as [e1 oins]. destruct oins; discriminate. Qed.
 Lemma apply_indexed_not_applied s uc st tg nw cm o :
-  snd (apply_indexed s uc st tg nw cm o) <> Applied -> ARel (sdoc s) (sdoc (fst (apply_indexed s uc st tg nw cm o))).
+  applied (snd (apply_indexed s uc st tg nw cm o)) = false -> ARel (sdoc s) (sdoc (fst (apply_indexed s uc st tg nw cm o))).
 Proof. unfold apply_indexed, sdoc.
   set (sp := if uc then _ else _). set (e := s_eng s) in *.
-  destruct (match _ with Some c => is_some_nonempty (o_ins c) | None => false end); [leafA|].
+  destruct (match _ with Some c => is_some_nonempty (o_ins c) | None => false end).
+  { intros HH. rewrite (nested_replace_not_applied _ _ _ _ HH). apply ARel_refl. }
   destruct (negb (block_ok nw)); [leafA|].
   destruct (match o with Some x => x | None => _ end).
   - pose proof (anchor_keeps_tape (e_doc e) sp st) as RA. destruct (insertion_anchor (e_doc e) sp st) as [d1 a0]. cbn [fst] in RA.
@@ -767,9 +831,11 @@ Proof. unfold apply_indexed, sdoc.
       match goal with |- context[track_insert ?a ?b ?c0 ?d ?e0 ?f] => destruct (track_insert a b c0 d e0 f) as [e3 oi] end. destruct oi; leafA.
 Qed.
 Lemma apply_located_not_applied s uc st ml nw cm :
-  snd (apply_located s uc st ml nw cm) <> Applied -> ARel (sdoc s) (sdoc (fst (apply_located s uc st ml nw cm))).
+  applied (snd (apply_located s uc st ml nw cm)) = false -> ARel (sdoc s) (sdoc (fst (apply_located s uc st ml nw cm))).
 Proof. unfold apply_located.
-  destruct (existsb _ _); [leafA|]. destruct (existsb _ _); [leafA|].
+  destruct (existsb _ _); [leafA|]. destruct (find _ (firstn 1 _)).
+  { match goal with |- context[apply_indexed ?a ?b ?c ?d ?e ?f ?g0] => pose proof (apply_indexed_not_applied a b c d e f g0) as HH; destruct (apply_indexed a b c d e f g0) as [s' oc] end.
+    cbn [fst snd] in *. destruct oc; cbn [applied] in *; intros E; try discriminate E; exact (HH eq_refl). }
   destruct (str_eqb _ _); [leafA|]. destruct (prefixb _ _); [apply apply_indexed_not_applied|].
   match goal with |- context[match ?a with [] => _ | _ :: _ => _ end] => destruct a end;
   match goal with |- context[match ?a with [] => _ | _ :: _ => _ end] => destruct a end; first [apply apply_indexed_not_applied | leafA]. Qed.
@@ -779,35 +845,30 @@ Proof. unfold locate, sdoc. destruct (find_sub tg (map_text (s_raw s)) 0); [refl
   - match goal with |- context[find_match ?a ?b ?c] => destruct (find_match a b c) end. reflexivity.
   - destruct a; [reflexivity|]. match goal with |- context[find_match ?a ?b ?c] => destruct (find_match a b c) end. reflexivity. Qed.
 Lemma apply_heuristic_not_applied s tg nw cm orc :
-  snd (fst (apply_heuristic s tg nw cm orc)) <> Applied -> ARel (sdoc s) (sdoc (fst (fst (apply_heuristic s tg nw cm orc)))).
+  applied (snd (fst (apply_heuristic s tg nw cm orc))) = false -> ARel (sdoc s) (sdoc (fst (fst (apply_heuristic s tg nw cm orc)))).
 Proof. unfold apply_heuristic. destruct tg as [|c tg']; [intros _; apply ARel_refl|].
   pose proof (locate_doc s (c :: tg') orc) as HL. destruct (locate s (c :: tg') orc) as [[[m uc] s1] orc2]. cbn [fst snd] in HL.
   destruct m as [[st ml]|]; cbn [fst snd]; [|intros _; rewrite HL; apply ARel_refl].
   intros H. rewrite <- HL. now apply apply_located_not_applied. Qed.
 Section NoTrace.
 Variable d0 : doc.
-Definition h_nt (a : hstate) : Prop := let '(s, ap, _, _, _, _) := a in ap = 0 -> ARel d0 (sdoc s).
+Definition h_nt (a : hstate) : Prop := let '(s, ap, _, _, _, _, _) := a in ap = 0 -> ARel d0 (sdoc s).
 Lemma step_heur_nt a edp : h_nt a -> h_nt (step_heur a edp).
-Proof. destruct a as [[[[[s ap] sk] out] orc] occ]. destruct edp as [ed rng]. intros HI. unfold step_heur.
+Proof. destruct a as [[[[[[s ap] sk] out] orc] occ] nn]. destruct edp as [ed rng]. intros HI. unfold step_heur.
   destruct (negb (Nat.eqb out 0)); [exact HI|].
   destruct (match rng with Some (a, b) => overl occ a b | None => false end); [exact HI|].
   pose proof (apply_heuristic_not_applied s (ed_target ed) (ed_new ed) (ed_comment ed) orc) as HH.
-  destruct (apply_heuristic s _ _ _ orc) as [[s' oc] orc']. cbn [fst snd] in HH. destruct oc; cbn [h_nt].
-  - discriminate.
-  - intros E. exact (ARel_trans _ _ _ (HI E) (HH ltac:(discriminate))).
-  - intros E. exact (ARel_trans _ _ _ (HI E) (HH ltac:(discriminate))). Qed.
+  destruct (apply_heuristic s _ _ _ orc) as [[s' oc] orc']. cbn [fst snd] in HH. destruct oc; cbn [h_nt applied] in *; try discriminate;
+  intros E; exact (ARel_trans _ _ _ (HI E) (HH eq_refl)). Qed.
 Lemma fold_heur_nt : forall es a, h_nt a -> h_nt (fold_left step_heur es a).
 Proof. induction es as [|ed es IH]; intros a H; cbn [fold_left]; [exact H|]. apply IH. now apply step_heur_nt. Qed.
-Definition i_nt (a : istate) : Prop := let '(s, ap, _, _, _) := a in ap = 0 -> ARel d0 (sdoc s).
+Definition i_nt (a : istate) : Prop := let '(s, ap, _, _, _, _) := a in ap = 0 -> ARel d0 (sdoc s).
 Lemma step_idx_nt a ed : i_nt a -> i_nt (step_idx a ed).
-Proof. destruct a as [[[[s ap] sk] out] occ]. intros HI. unfold step_idx.
+Proof. destruct a as [[[[[s ap] sk] out] occ] nn]. intros HI. unfold step_idx.
   destruct (negb (Nat.eqb out 0)); [exact HI|].
   destruct (overl occ _ _); [exact HI|].
   match goal with |- context[apply_indexed ?a ?b ?c ?d ?e ?f ?g] => pose proof (apply_indexed_not_applied a b c d e f g) as HH; destruct (apply_indexed a b c d e f g) as [s' oc] end.
-  cbn [fst snd] in HH. destruct oc; cbn [i_nt].
-  - discriminate.
-  - intros E. exact (ARel_trans _ _ _ (HI E) (HH ltac:(discriminate))).
-  - intros E. exact (ARel_trans _ _ _ (HI E) (HH ltac:(discriminate))). Qed.
+  cbn [fst snd] in HH. destruct oc; cbn [i_nt applied] in *; try discriminate; intros E; exact (ARel_trans _ _ _ (HI E) (HH eq_refl)). Qed.
 Lemma fold_idx_nt : forall es a, i_nt a -> i_nt (fold_left step_idx es a).
 Proof. induction es as [|ed es IH]; intros a H; cbn [fold_left]; [exact H|]. apply IH. now apply step_idx_nt. Qed.
 End NoTrace.
@@ -815,29 +876,23 @@ End NoTrace.
    normalised input as it was: the same atoms (characters, formatting, marks, anchors, other content) in every paragraph, the
    same stories / tables / cells, the same comment records; only run boundaries may have moved *)
 Theorem engine_no_trace d author ts edits orc :
-  let '(d', ap, _, _) := apply_edits d author ts edits orc in ap = 0 -> ARel (normalize_doc d) d'.
+  let '(d', ap, _, _, _) := apply_edits d author ts edits orc in ap = 0 -> ARel (normalize_doc d) d'.
 Proof. unfold apply_edits. set (nd := normalize_doc d).
   set (e := mk_engine d author ts).
   set (s0 := {| s_eng := e; s_raw := _; s_clean := None; s_cm0 := _; s_cmc := [] |}).
-  assert (H0 : i_nt nd (s0, 0, 0, 0, [])) by (intros _; apply ARel_refl).
+  assert (H0 : i_nt nd (s0, 0, 0, 0, [], 0)) by (intros _; apply ARel_refl).
   set (indexed := filter _ edits). set (heur := filter (fun x => match ed_index x with Some _ => false | None => true end) edits).
   pose proof (fold_idx_nt nd (sort_idx_desc indexed) _ H0) as HI.
-  destruct (fold_left step_idx (sort_idx_desc indexed) (s0, 0, 0, 0, [])) as [[[[s1 ap1] sk1] out1] occ1]. cbn [i_nt] in HI.
+  destruct (fold_left step_idx (sort_idx_desc indexed) (s0, 0, 0, 0, [], 0)) as [[[[[s1 ap1] sk1] out1] occ1] nn1]. cbn [i_nt] in HI.
   destruct heur as [|h heur']; [exact HI|].
   destruct (plan (map_text (s_raw (rebuild s1))) (sort_len_desc (h :: heur')) orc) as [planned orc1].
-  pose proof (fold_heur_nt nd planned (rebuild s1, ap1, sk1, out1, orc1, occ1) HI) as HH.
-  destruct (fold_left step_heur planned _) as [[[[[s2 ap2] sk2] out2] orc2] occ2]. exact HH. Qed.
+  pose proof (fold_heur_nt nd planned (rebuild s1, ap1, sk1, out1, orc1, occ1, nn1) HI) as HH.
+  destruct (fold_left step_heur planned _) as [[[[[[s2 ap2] sk2] out2] orc2] occ2] nn2]. exact HH. Qed.
 Print Assumptions engine_no_trace.
 
 (* ---------- histories: every session satisfies its single-step contract relative to the document it loaded ---------- *)
 From Adeu Require Import History.
 (* paragraph identities are kept by everything that maps over paragraphs; next_uid only grows: well-formedness survives every session *)
-Lemma wf_of_ids a b : map p_id (doc_paras b) = map p_id (doc_paras a) -> d_next_uid a <= d_next_uid b -> wf_ids a -> wf_ids b.
-Proof. intros E M W. unfold wf_ids in *. apply Forall_forall. intros p Hp.
-  assert (Hi : In (p_id p) (map p_id (doc_paras a))) by (rewrite <- E; now apply in_map).
-  apply in_map_iff in Hi as (q & Hq & Hqin). rewrite Forall_forall in W. specialize (W q Hqin). lia. Qed.
-Lemma ids_map_doc f d : (forall p, p_id (f p) = p_id p) -> map p_id (doc_paras (map_doc f d)) = map p_id (doc_paras d).
-Proof. intros Hf. rewrite doc_paras_map, map_map. apply map_ext. exact Hf. Qed.
 Lemma wf_map_doc f d : (forall p, p_id (f p) = p_id p) -> wf_ids d -> wf_ids (map_doc f d).
 Proof. intros Hf. apply wf_of_ids; [now apply ids_map_doc|cbn; lia]. Qed.
 Lemma ids_normalize d : map p_id (doc_paras (normalize_doc d)) = map p_id (doc_paras d).
@@ -866,19 +921,19 @@ Proof. induction acts as [|x acts IH]; intros st W; cbn [fold_left]; [exact W|].
     + exact W. Qed.
 Lemma wf_run_session d s : wf_ids d -> wf_ids (run_session d s).
 Proof. intros W. destruct s as [a t es o|a t acts|]; cbn [run_session].
-  - pose proof (engine_rel d a t es o (wf_normalize d W)) as H. destruct (apply_edits d a t es o) as [[[d' ap] sk] out]. exact (proj2 H).
+  - pose proof (engine_rel d a t es o (wf_normalize d W)) as H. destruct (apply_edits d a t es o) as [[[[d' ap] sk] out] nn]. exact (proj2 H).
   - unfold review_session, apply_actions. pose proof (wf_apply_actions a t acts (normalize_doc d, 0, 0) (wf_normalize d W)) as H.
     destruct (fold_left _ acts (normalize_doc d, 0, 0)) as [[d' ap] sk]. exact H.
   - unfold accept_all_doc. apply wf_map_doc; [reflexivity|now apply wf_normalize]. Qed.
 Definition session_contract (d : doc) (s : session) (d' : doc) : Prop :=
   match s with
-  | SEdits a t es o => let nd := normalize_doc d in RelG (scan_ids nd) (next_comment_id nd) (d_next_uid nd) nd d'
+  | SEdits a t es o => let nd := normalize_doc d in snd (apply_edits d a t es o) = 0 -> RelG (scan_ids nd) (next_comment_id nd) (d_next_uid nd) nd d'
   | SReview a t acts => exists ap sk, review_session d a t acts = (d', ap, sk) /\ ap + sk = length acts
   | SAcceptAll => d' = accept_all_doc (normalize_doc d)
   end.
 Lemma run_session_contract d s : wf_ids d -> session_contract d s (run_session d s).
 Proof. intros W. destruct s as [a t es o|a t acts|]; cbn [run_session session_contract].
-  - pose proof (engine_rel d a t es o (wf_normalize d W)) as H. destruct (apply_edits d a t es o) as [[[d' ap] sk] out]. exact (proj1 H).
+  - pose proof (engine_rel d a t es o (wf_normalize d W)) as H. destruct (apply_edits d a t es o) as [[[[d' ap] sk] out] nn]. cbn [snd]. exact (proj1 H).
   - pose proof (actions_count (reply_doc a t) (normalize_doc d) acts) as H. unfold review_session in *.
     destruct (apply_actions (reply_doc a t) (normalize_doc d) acts) as [[d' ap] sk]. exists ap, sk. auto.
   - reflexivity. Qed.
